@@ -188,6 +188,7 @@ func c14(c *Ctx) {
 		rec := &lcRecorder{t0: time.Now()}
 		var pmu sync.Mutex
 		search.VerifTraceHook = func(ev string, a, b int64) { rec.add(ev, a, b, "") }
+		noDelays := false
 		var meetMu sync.Mutex
 		var meetCh chan struct{}
 		pr2 := SubRng(c.Seed, "c14/meet", h)
@@ -217,6 +218,12 @@ func c14(c *Ctx) {
 			pmu.Lock()
 			d := delays[pr.Intn(len(delays))]
 			pmu.Unlock()
+			if noDelays {
+				// single-processor histories: the order in which the one processor runs the
+				// goroutines is the schedule under test; a sleeping hook would hand the
+				// processor to the late starters and hide exactly that
+				d = 0
+			}
 			rec.add("point:"+name, int64(d), 0, "")
 			if d > 0 {
 				time.Sleep(d)
@@ -228,6 +235,7 @@ func c14(c *Ctx) {
 		rep.Begin(fmt.Sprintf("lifecycle history %d", h))
 		rep.Inc("histories")
 		forceRoot := -1
+		noDelays = h%6 == 4
 		if h%6 == 4 {
 			// one processor only: goroutines the engine starts (search, timers) queue behind
 			// whoever runs, so they begin late - after their search has ended, or after the
